@@ -85,6 +85,11 @@ func runC17(c *Ctx) {
 		chain := true
 		ncol := 0
 		for k := 2 + c.Rng.Intn(10); k > 0; k-- {
+			if c.Rng.Chance(12) {
+				// the server announces a nickname length the proposals reach or exceed: the alternative is still the
+				// rejected nickname plus '_' (the server will say so if it is too long), never a nickname already rejected
+				steps = append(steps, fmt.Sprintf("R:srv 005 %s NICKLEN=%d CHANTYPES=# :are supported by this server", in["nick"], len(cur)+c.Rng.Intn(3)-1))
+			}
 			switch c.Rng.Intn(5) {
 			case 0, 1:
 				steps = append(steps, "RPING "+c.Rng.Pick(toks))
